@@ -104,6 +104,59 @@ CHECKS = {
         "over 2-3 letters. Progressive alignment optimality not defined/checked; codon/protein aligners structural only.",
         technique="TLA+ path-space enumeration (TLC) + conformance of real aligners; TLC validation of merged alignments against a relation",
     ),
+    "C01": dict(
+        category="model_checking",
+        text="SeqView.tla is a two-layer spec: the abstract view (sequence of displayed parent indices + complement flag, Python slice "
+        "semantics from PySlice.tla) and the implementation-shaped SeqView record (start, stop, step, offset, seq_len) transcribed from "
+        "the code; TLC proves the refinement (Refines, CoordsRefine, RcInvolution, ...) on the closed reachable set for parent lengths "
+        "<= 3 (quick) / 4 (thorough) with out-of-range and negative slice arguments, strides to +-3, rc, to_rna/to_dna, copy, and by "
+        "simulation walks to length 10. Every emitted transition is replayed on old Sequence, new Sequence and collection-backed "
+        "SeqDataView objects (str, len, iteration, parent_coordinates under the calibrated containment rule, annotation offset), and in "
+        "every reached state ~100 read-only methods are compared with the same method on a fresh sequence built from str(view).",
+        design_ref="DESIGN.md section 2 / C01",
+        note="Trusted: TLC, harness projection. DNA/RNA only (no protein/text); lengths > 4 only by walks; annotation/plotting methods and "
+        "to_rich_dict (C10) excluded from the method comparison; no code->spec trace validation for this property.",
+        technique="TLA+ refinement model (TLC exhaustive + simulation) + spec->code transition replay on three sequence classes",
+    ),
+    "C08": dict(
+        category="model_checking",
+        text="IndelMap.tla defines every IndelMap operation on the gapped string it describes (slice for all intervals, index, concat, "
+        "scale, reversal, merge/minus/shared gaps, joined segments, index conversions, feature-map views) and FeatureMap.tla defines "
+        "inverse/covered/shadow/reversal/composition/gaps on the position sequence; TLC checks the algebraic laws and InParent on all "
+        "strings <= 6 (quick) / 8 (thorough). Every emitted case is executed on real maps built through 6 constructors and the full "
+        "description is compared; maps recorded at real call sites (Aligned slicing/rc/concat, feature projection, dotplot) are validated "
+        "against IndelMapTrace.tla.",
+        design_ref="DESIGN.md section 2 / C08",
+        note="Trusted: TLC, harness projection. Slice bounds beyond +-len, with_termini_unknown, FeatureMap absolute/relative position and "
+        "zero-length spans not covered.",
+        technique="TLA+ string-model of coordinate maps (TLC exhaustive) + spec->code replay + code->spec trace validation",
+    ),
+    "C19": dict(
+        category="model_checking",
+        text="AtomicWrite.tla models the file system (dest, temp) and the actual call sequence of atomic_write / save_to_filename / "
+        "Table.write with Crash, Fault(call) and FormatterRaises actions; TLC reports the invariant Atomic violated on the transcribed "
+        "current protocol (unlink-then-rename window, unlink-on-error) and proves it on the intended protocol. Every file-system call "
+        "boundary of real writes (audit-hook injection in child processes; kill and OSError at each boundary; plain/gz/bz2/zip targets; "
+        "existing/absent destination; formatter failures) is executed and the observed (dest, leftovers) judged by the spec's verdict "
+        "table; each child's call log is validated by Trace_AtomicWrite.tla. AtomicWriteResume.tla models apply_to interruption and "
+        "re-run; every prefix / kill point of real runs on a DataStoreDirectory is replayed.",
+        design_ref="DESIGN.md section 2 / C19",
+        note="Trusted: TLC, sys.addaudithook as the boundary observer (write/close faults injected by a proxy around open_). Power-loss "
+        "durability (fsync), partial flush inside one C-level write, two injections per run and parallel apply_to not covered.",
+        technique="TLA+ crash/fault model (TLC) + fault enumeration at every real call boundary + trace validation of call logs",
+    ),
+    "C20": dict(
+        category="model_checking",
+        text="Table.tla gives the list-of-rows meaning of sorted/filtered/count/distinct/joins/appended/transposed/get_columns/"
+        "with_new_column (TLC checks StableSortLaw, JoinLaw, ...); TableText.tla models csv.writer, separator_format and the csv reader "
+        "at character level (TLC proves CsvWriterLossless, gives the expected counterexample for separator_format). All emitted tables x "
+        "arguments are executed with real Table objects, and typed tables are written (tsv/csv/gz/json/pickle, to_csv/to_tsv) and "
+        "reloaded, comparing header, cell text and numeric restoration.",
+        design_ref="DESIGN.md section 2 / C20",
+        note="Trusted: TLC, harness instantiation of cells. Tables <= 3 columns x <= 4 rows (plus 16-100 row sort cases); index_name, "
+        "titles/legends, display formats, \\r in cells, custom reader/writer callbacks not covered.",
+        technique="TLA+ list-of-rows and character-level text models (TLC) + spec->code replay incl. file round trips",
+    ),
 }
 
 PENDING = {}
